@@ -635,54 +635,8 @@ def better(eng, st, direction, a, b):
 
 # ---------------------------------------------------------------------------------------------
 # get_all_trials / delete_study / get_all_studies
-CONTAINER_T_FIELDS = ["_params", "_distributions", "_user_attrs", "_system_attrs", "intermediate_values", "_values"]
-
-
-@R.specfunc("deepcopy_list:ref:FrozenTrial")
-def deepcopy_trial_list(eng, st, v, node=None):
-    """copy.deepcopy(list[FrozenTrial]): a fresh list of fresh FrozenTrial objects (pairwise distinct, distinct from
-    everything allocated before); scalar fields equal; every container field is a fresh container with equal
-    content.  Objects allocated before the call are unchanged."""
-    n = eng.list_len(st, v)
-    old_nref = st.nref
-    out = eng.new_list(st, KList(v.kind.elem, ""), n)
-    new_nref = st.fresh("nref", z3.IntSort())
-    st.assume(new_nref >= st.nref)
-    st.nref = new_nref
-    cp = st.fresh("dc_obj", z3.ArraySort(z3.IntSort(), z3.IntSort()))
-    inv = st.fresh("dc_inv", z3.ArraySort(z3.IntSort(), z3.IntSort()))
-    i, r = z3.Int("dc_i"), z3.Int("dc_r")
-    _, e_src = eng.lnames(v.kind)
-    src = eng.harr(st, e_src)[v.term]
-    _, e_dst = eng.lnames(out.kind)
-    st.heap[e_dst] = z3.Store(eng.harr(st, e_dst), out.term, cp)
-    inr = z3.And(0 <= i, i < n)
-    st.assume(qforall([i], z3.Implies(inr, z3.And(cp[i] > old_nref, cp[i] < new_nref, inv[cp[i]] == i)), patterns=[cp[i]]), quantified=True)
-    for f in ALL_T_FIELDS:
-        name, kind = eng.fname("FrozenTrial", f)
-        a0 = eng.harr(st, name)
-        a1 = eng.havoc_harr(st, name)
-        st.assume(qforall([r], z3.Implies(z3.And(0 <= r, r <= old_nref), a1[r] == a0[r]), patterns=[a1[r]]), quantified=True)
-        if f not in CONTAINER_T_FIELDS:
-            st.assume(qforall([i], z3.Implies(inr, a1[cp[i]] == a0[src[i]]), patterns=[a1[cp[i]]]), quantified=True)
-            continue
-        # fresh container with equal content
-        cf = st.fresh("dc_" + f, z3.ArraySort(z3.IntSort(), z3.IntSort()))
-        if isinstance(kind, KDict):
-            names = eng.dnames(kind)
-        else:
-            names = eng.lnames(kind)
-        olds = [eng.harr(st, nm) for nm in names]
-        news = [eng.havoc_harr(st, nm) for nm in names]
-        for o, nw in zip(olds, news):
-            st.assume(qforall([r], z3.Implies(z3.And(0 <= r, r <= old_nref), nw[r] == o[r]), patterns=[nw[r]]), quantified=True)
-        null_ok = (a0[src[i]] == 0) if kind.nullable else z3.BoolVal(False)
-        body = z3.If(null_ok, a1[cp[i]] == 0,
-                     z3.And(a1[cp[i]] == cf[i], cf[i] > old_nref, cf[i] < new_nref,
-                            z3.And([nw[cf[i]] == o[a0[src[i]]] for o, nw in zip(olds, news)])))
-        st.assume(qforall([i], z3.Implies(inr, body), patterns=[a1[cp[i]]]), quantified=True)
-    eng.set_is_tuple(st, out, False)
-    return out
+from contracts.common import deepcopy_trial_list, CONTAINER_T_FIELDS  # noqa: E402
+R.specfuncs["deepcopy_list:ref:FrozenTrial"] = deepcopy_trial_list
 
 
 def _match(eng, st, state_term, states):
